@@ -1432,3 +1432,76 @@ Proof.
 Qed.
 
 Definition seqN (n : nat) : list N := map N.of_nat (seq 0 n).
+
+(* ------------------------------------------------------------------------------------------ *)
+(* E. production lookup: the udp port guess; findValue reply size                              *)
+(* ------------------------------------------------------------------------------------------ *)
+Lemma guess_udp_supported (udp tcp : N) : guess_udp tcp = udp <-> port_layout_supported udp tcp.
+Proof.
+  unfold guess_udp, port_layout_supported.
+  destruct (3332 <? tcp)%N eqn:E1; destruct (tcp <? 3400)%N eqn:E2; cbn [andb];
+    try apply N.ltb_lt in E1; try apply N.ltb_ge in E1; try apply N.ltb_lt in E2; try apply N.ltb_ge in E2; lia.
+Qed.
+
+(* a peer that is not this node and not known bad, whose ports follow a supported layout, is handed out at once
+   or pinged on its REAL udp port *)
+Lemma producer_action_reaches (good : option bool) (known : option N) (udp tcp : N) :
+  good <> Some false -> port_layout_supported udp tcp -> (known = None \/ known = Some udp) -> udp <> 0%N ->
+  producer_action false good known tcp = APut \/ producer_action false good known tcp = APing udp.
+Proof.
+  intros Hg Hs Hk Hu. unfold producer_action.
+  destruct good as [[|]|]; [now left|congruence|]. right.
+  apply guess_udp_supported in Hs. destruct Hk as [->| ->]; [now rewrite Hs|].
+  destruct (N.eqb_spec udp 0); [contradiction|reflexivity].
+Qed.
+
+Lemma ndigits_le (n : N) : ndigits n <= 7 /\ 1 <= ndigits n.
+Proof. unfold ndigits. repeat (destruct (_ <? _)%N); lia. Qed.
+
+Lemma ndigits_small (n : N) k : (n < 10 ^ k)%N -> (1 <= k <= 6)%N -> ndigits n <= N.to_nat k.
+Proof.
+  intros Hn Hk. unfold ndigits.
+  assert (Hk' : (k = 1 \/ k = 2 \/ k = 3 \/ k = 4 \/ k = 5 \/ k = 6)%N) by lia.
+  repeat match goal with |- context [(?a <? ?b)%N] => destruct (N.ltb_spec a b) end;
+    destruct Hk' as [E|[E|[E|[E|[E|E] ] ] ] ]; subst k;
+    match type of Hn with (_ < 10 ^ ?k)%N =>
+      let v := eval vm_compute in (10 ^ k)%N in change (10 ^ k)%N with v in Hn;
+      let w := eval vm_compute in (N.to_nat k) in change (N.to_nat k) with w end; lia.
+Qed.
+
+Lemma sz_bytes_text len : len <= 15 -> sz_bytes len <= 18.
+Proof.
+  intro H. unfold sz_bytes. assert (ndigits (N.of_nat len) <= 2); [|lia].
+  apply (ndigits_small _ 2); [change (10 ^ 2)%N with 100%N; lia|lia].
+Qed.
+
+Lemma sz_int_port p : (p < 65536)%N -> sz_int p <= 7.
+Proof.
+  intro H. unfold sz_int. assert (ndigits p <= 5); [|lia].
+  apply (ndigits_small _ 5); [change (10 ^ 5)%N with 100000%N; lia|lia].
+Qed.
+
+Lemma sum_triples cs : Forall (fun c => fst c <= 15 /\ (snd c < 65536)%N) cs ->
+  sum_nat (map sz_triple cs) <= 78 * length cs.
+Proof.
+  induction 1 as [|c cs [H1 H2] _ IH]; cbn [map sum_nat fold_right length]; [lia|].
+  fold (sum_nat (map sz_triple cs)). unfold sz_triple at 1.
+  pose proof (sz_bytes_text _ H1). pose proof (sz_int_port _ H2).
+  change (sz_bytes 48) with 51. lia.
+Qed.
+
+(* K contacts with the longest dotted quads and 5-digit ports, a full page of K peers and any page count below
+   10^6: the largest first findValue page fits one datagram *)
+Theorem first_page_fits (cs : list (nat * N)) (c : nat) (pages : N) :
+  length cs <= K -> Forall (fun x => fst x <= 15 /\ (snd x < 65536)%N) cs -> c <= K -> (pages < 1000000)%N ->
+  find_value_reply_size (Some cs) (Some c) pages <= MSG_SIZE_LIMIT.
+Proof.
+  intros Hl Hf Hc Hp. unfold find_value_reply_size, MSG_SIZE_LIMIT, K in *.
+  pose proof (sum_triples cs Hf) as Hs.
+  assert (Hpg : sz_int pages <= 8).
+  { unfold sz_int. assert (ndigits pages <= 6); [|lia]. apply (ndigits_small _ 6); [exact Hp|lia]. }
+  change (sz_bytes 5) with 7. change (sz_bytes 48) with 51. change (sz_bytes 8) with 10.
+  change (sz_bytes 15) with 18. change (sz_bytes 54) with 57. change (sz_bytes 1) with 3. change (sz_bytes 20) with 23.
+  change (sz_int 0) with 3. change (sz_int 1) with 3. change (sz_int 2) with 3. change (sz_int 3) with 3.
+  nia.
+Qed.
